@@ -139,6 +139,15 @@ LAYOUTS = ["fortran", "double-transpose", "strided-slice", "negative-strides", "
 
 def relayout(a, how):
     """an array equal to `a` element by element but with another memory layout"""
+    if isinstance(a, np.ma.MaskedArray) and a.ndim >= 2 and hasattr(a, "folded") and how in ("fortran", "double-transpose"):
+        # a Spectrum equal entry by entry whose data and mask buffers are Fortran-ordered (what reorder_pops / .T hand out)
+        import dadi
+        perm = tuple(range(a.ndim))[::-1]
+        t = dadi.Spectrum(np.ascontiguousarray(np.transpose(np.asarray(a.data), perm)), mask=np.ascontiguousarray(np.transpose(np.ma.getmaskarray(a), perm)),
+                          mask_corners=False, data_folded=a.folded, pop_ids=(list(a.pop_ids)[::-1] if a.pop_ids else None), check_folding=False)
+        r = t.transpose(perm)
+        r.folded, r.pop_ids, r.extrap_x = a.folded, a.pop_ids, a.extrap_x
+        return r
     if not isinstance(a, np.ndarray) or isinstance(a, np.ma.MaskedArray) or a.ndim == 0 or a.dtype == object:
         return a
     if how == "fortran":
@@ -239,7 +248,7 @@ def build(name, argseed, dadi, env):
     if name.startswith("Spectrum."):
         meth = name.split(".", 1)[1]
         folded = bool(rng.integers(2)) if meth in ("project", "marginalize", "S", "log", "add", "mul") else False
-        fs = _spectrum(rng, dadi, nd=(2 if meth in ("Fst", "combine_pops", "scramble_pop_ids", "reorder_pops", "filter_pops") else (1 if meth in ("pi", "Watterson_theta", "Tajima_D", "theta_L") else None)),
+        fs = _spectrum(rng, dadi, nd=(2 if meth in ("Fst", "combine_pops", "scramble_pop_ids", "reorder_pops", "filter_pops", "sample", "fixed_size_sample") else (1 if meth in ("pi", "Watterson_theta", "Tajima_D", "theta_L") else None)),
                        folded=folded, masked=(meth in ("project", "fold", "log")))
         ns = [s - 1 for s in fs.shape]
         if meth == "project":
@@ -252,6 +261,7 @@ def build(name, argseed, dadi, env):
             def call(f, m=meth):
                 np.random.seed(4321)
                 return f.sample() if m == "sample" else f.fixed_size_sample(25)
+            F["layout_args"] = [0]
             return call, [src], {}, F
         if meth == "fold":
             return (lambda f: f.fold()), [fs], {}, F
@@ -535,14 +545,28 @@ def build(name, argseed, dadi, env):
             gp = 3.25 if int(argseed) % 3 != 2 else 5.0
             return (lambda th, g: cache.integrate_point_pos([2.0, 1.5, 0.2, g], None, DFE.PDFs.lognormal, th, demo_sel_func=_synth1)), [theta, gp], {}, F
     if name == "Demes.output":
+        with_pulse = int(argseed) % 3 == 1
+
         def prog(nu2, T):
             xx = Numerics.default_grid(10)
             phi = PhiManip.phi_1D(xx)
             phi = PhiManip.phi_1D_to_2D(xx, phi)
             phi = Integration.two_pops(phi, xx, T, nu1=1.5, nu2=nu2, m12=1.0)
+            if with_pulse:
+                phi = PhiManip.phi_2D_admix_1_into_2(phi, 0.2, xx, xx)
+                phi = Integration.two_pops(phi, xx, T, nu1=1.5, nu2=nu2)
             import dadi.Demes as DD
-            g = DD.output(Nref=1000.0)
-            return json.dumps(g.asdict(), sort_keys=True, default=str)
+            # the recorded history is exported twice: the second export is the first one again
+            out = []
+            for _ in range(2):
+                try:
+                    out.append(json.dumps(DD.output(Nref=1000.0).asdict(), sort_keys=True, default=str))
+                except Exception as e:
+                    if not out:
+                        raise
+                    out.append("second export raised %s: %s" % (type(e).__name__, str(e)[:120]))
+            return out
+        F["pair"] = True
         return prog, [float(rng.uniform(0.5, 2)), float(rng.uniform(0.05, 0.2))], {}, F
     raise KeyError(name)
 
@@ -592,6 +616,10 @@ def evaluate(calls, dadi=None, env=None, layout=None, keep_values=False):
                     rec["errstate"] = [err0, dict(np.geterr())]
                     np.seterr(**err0)
             rec["digest"] = digest(res)
+            if flags.get("pair"):
+                rec["pair_equal"] = bool(digest(res[0]) == digest(res[1]))
+                if not rec["pair_equal"]:
+                    rec["pair_second"] = str(res[1])[:200]
             if keep_values:
                 rec["value"] = res
             rec["inputs_unchanged"] = snapshot(args) == snap
